@@ -2111,6 +2111,44 @@ def rule_exits_are_handed_on_by_controller_methods(eng, rep, rule="C07-19b.an-ex
     rep.require_count(rule, "bindings of an exit from a call in Controller methods", n, 6)
 
 
+def rule_no_exit_is_carried_round_the_main_loop(eng, rep, rule="C07-19c.the-main-loop-never-goes-round-with-an-exit-in-hand"):
+    """Once a test has found `exit_info` to be an exit object, the only ways on are `break` (the run ends) or a restart that binds `exit_info` again.  A path from the
+    not-None edge of such a test back to the head of the main loop without a new binding (a `continue` for a `break`) throws the exit away: the budget / restart limit
+    that produced it is ignored and the run counter has already been stepped."""
+    from .anchors import anchors
+    A = anchors(eng)
+    sm = A.solve_main
+    cfg = eng.cfg(sm)
+    whiles = [(h, st) for (h, kind, st) in cfg.loops if kind == "while"]
+    if len(whiles) != 1:
+        rep.unknown(rule, eng.where(sm), "expected one main loop in solve_main")
+        return
+    h, _w = whiles[0]
+    body = cfg.loop_nodes(h)
+    var = "exit_info"
+    rebinds = set(n for n in body if cfg.kind(n) == "stmt" and isinstance(cfg.ast_of(n), ast.Assign) and var in [x for t in cfg.ast_of(n).targets for x in assigned_names(t)])
+    n = 0
+    for c in sorted(body):
+        if cfg.kind(c) != "cond":
+            continue
+        for m, e in cfg.succ(c):
+            if e.get("label") not in (True, False):
+                continue
+            at = atom_of(cfg.ast_of(c), e["label"])
+            if not (at.op == "isnot" and isinstance(at.lhs, ast.Name) and at.lhs.id == var and is_none(at.rhs)):
+                continue
+            n += 1
+            site = eng.where(sm, cfg.ast_of(c))
+            p = [m] if m == h else (cfg.path_avoiding(m, h, rebinds) if m not in rebinds else None)
+            if p is None:
+                rep.ok(rule, site, "with an exit in hand every path leaves the loop or binds exit_info again before the loop goes round")
+            else:
+                rep.bad(rule, site, "solver.solve_main|exit-carried-round-the-loop",
+                        "after `%s` found an exit, the head of the main loop can be reached again without a new binding of exit_info: the exit is dropped" % short(cfg.ast_of(c), 40),
+                        path=cfg.describe_path(p)[-6:])
+    rep.require_count(rule, "tests that find an exit in the main loop", n, 8)
+
+
 # --------------------------------------------------------------------------------------------- C07-20
 def rule_orthogonalised_vectors_are_tested_before_normalising(eng, rep, rule="C07-20.a-vector-orthogonalised-against-a-basis-is-tested-before-it-is-normalised"):
     """v := v - (v.q) q for every column q of an orthonormal basis leaves exactly 0 when the basis already spans the space (n = 1 with one direction; a regression set
@@ -2410,8 +2448,8 @@ def rule_range_validators_test_both_ends(eng, rep, rule="C07-5c.range-validators
     lets an out-of-range user parameter into the run (C07: bad input is reported)."""
     n = 0
     for fi in sorted(eng.prog.functions.values(), key=lambda f: f.fid):
-        if fi.module != "params" or fi.cls is not None or fi.is_lambda or not {"lower", "upper"} <= set(fi.all_params):
-            continue
+        if fi.cls is not None or fi.is_lambda or not {"lower", "upper", "allow_nonetype"} <= set(fi.all_params):
+            continue          # (the validators are recognised by their signature, wherever they live)
         val = fi.posparams[0]
         cfg = eng.cfg(fi)
         # the return reached when the value is not None and of the right type: the last return of the function (else branch of the type chain)
@@ -2462,6 +2500,17 @@ def rule_check_all_params_reports_every_failure(eng, rep, rule="C07-5d.every-par
                 if any(a.op == "false" and isinstance(a.lhs, ast.Call) and ekey(a.lhs.func).endswith("check_param") and a.lhs.args and ekey(a.lhs.args[0]) == key for a in gs):
                     found = node.func.value.id
     if found is None:
+        # comprehension form: L = [key for key.. in .. if not self.check_param(key, ..)]
+        for node in eng.prog.own_nodes(fi):
+            if isinstance(node, ast.Assign) and len(node.targets) == 1 and isinstance(node.targets[0], ast.Name) and isinstance(node.value, ast.ListComp) \
+                    and len(node.value.generators) == 1 and isinstance(node.value.elt, ast.Name):
+                g = node.value.generators[0]
+                key = node.value.elt.id
+                if key in assigned_names(g.target) and any(isinstance(c, ast.UnaryOp) and isinstance(c.op, ast.Not) and isinstance(c.operand, ast.Call)
+                                                           and ekey(c.operand.func).endswith("check_param") and c.operand.args and ekey(c.operand.args[0]) == key for c in g.ifs) \
+                        and len(g.ifs) == 1:
+                    found = node.targets[0].id
+    if found is None:
         rep.bad(rule, site, "params.ParameterList.check_all_params|failing-key-not-recorded",
                 "no statement appends the key of a parameter whose check_param(..) is false to the list of bad keys: every bad value is accepted")
         return
@@ -2482,6 +2531,61 @@ def rule_check_all_params_reports_every_failure(eng, rep, rule="C07-5d.every-par
         rep.ok(rule, site, "every key whose check fails is appended to `%s`; the method returns (`%s` is empty, `%s`)" % (found, found, found))
     else:
         rep.bad(rule, site, "params.ParameterList.check_all_params|result-not-derived-from-the-failures", "the returned (all_ok, bad_keys) pair is not (len(%s) == 0, %s)" % (found, found))
+
+
+def rule_instance_attributes_are_initialised(eng, rep, rule="C07-22.every-instance-attribute-that-is-read-is-set-by-the-constructor"):
+    """An attribute read through `self` in any method of a package class is assigned by that class's __init__ on every path to its normal end (the package has no
+    other place that creates attributes: zero exceptions on the pinned tree).  A counter or slot whose initialisation is dropped or made conditional surfaces as an
+    AttributeError out of solve on the first path that reads it before a later method happens to set it (e.g. `last_successful_run` in soft_restart)."""
+    n = 0
+    for cname, cls in sorted(eng.prog.classes.items()):
+        init = None
+        for m in cls.methods.values():
+            if m.qualname.endswith(".__init__"):
+                init = m
+        if init is None:
+            continue
+        sn = init.posparams[0]
+        cfg = eng.cfg(init)
+        stores = {}
+        for k, d in cfg.g.nodes(data=True):
+            st = d["ast"]
+            if d["kind"] != "stmt" or st is None:
+                continue
+            tg = st.targets if isinstance(st, ast.Assign) else ([st.target] if isinstance(st, (ast.AugAssign, ast.AnnAssign)) else [])
+            for t in tg:
+                for el in (t.elts if isinstance(t, (ast.Tuple, ast.List)) else [t]):
+                    if isinstance(el, ast.Attribute) and isinstance(el.value, ast.Name) and el.value.id == sn:
+                        stores.setdefault(el.attr, set()).add(k)
+        method_names = set(m.qualname.split(".")[-1] for m in cls.methods.values())
+        class_level = set()
+        for st in cls.node.body if hasattr(cls, "node") else []:
+            if isinstance(st, ast.Assign):
+                for t in st.targets:
+                    if isinstance(t, ast.Name):
+                        class_level.add(t.id)
+        read = {}
+        for m in cls.methods.values():
+            s2 = m.posparams[0] if m.posparams else None
+            for node in eng.prog.own_nodes(m):
+                if isinstance(node, ast.Attribute) and isinstance(node.ctx, ast.Load) and isinstance(node.value, ast.Name) and node.value.id == s2:
+                    read.setdefault(node.attr, (m, node))
+        for a, (m, node) in sorted(read.items()):
+            if a in method_names or a in class_level or (a.startswith("__") and a.endswith("__")):
+                continue
+            n += 1
+            site = "dfols/%s.py:%s.%s" % (init.module, cname, a)
+            if a not in stores:
+                rep.bad(rule, site, "%s|attribute-never-initialised|%s" % (cname, a),
+                        "`self.%s` is read in %s but %s.__init__ never assigns it: AttributeError on the first path that reads it before another method sets it" % (a, m.qualname, cname))
+                continue
+            p = cfg.path_avoiding(cfg.entry, cfg.exit, stores[a])
+            if p is not None:
+                rep.bad(rule, site, "%s|attribute-initialised-on-some-paths-only|%s" % (cname, a),
+                        "`self.%s` (read in %s) is assigned by %s.__init__ on some paths only" % (a, m.qualname, cname), path=cfg.describe_path(p)[-6:])
+            else:
+                rep.ok(rule, site, "assigned on every path through %s.__init__" % cname, nontrivial=False)
+    rep.require_count(rule, "instance attributes read through self", n, 60)
 
 
 def run(eng, rep):
@@ -2520,7 +2624,9 @@ def run(eng, rep):
     rep.guarded(rule_while_loops_are_bounded, eng, rep)
     rep.guarded(rule_exit_results_are_tested_before_the_loop_goes_round, eng, rep)
     rep.guarded(rule_exits_are_handed_on_by_controller_methods, eng, rep)
+    rep.guarded(rule_no_exit_is_carried_round_the_main_loop, eng, rep)
     rep.guarded(rule_orthogonalised_vectors_are_tested_before_normalising, eng, rep)
     rep.guarded(rule_format_conformance, eng, rep)
+    rep.guarded(rule_instance_attributes_are_initialised, eng, rep)
     from . import c20
     c20.rule_str_never_formats_none(eng, rep, rule="C07-8.printing")
